@@ -83,6 +83,41 @@ func flowByName(gs []GFlow, n string) *GFlow {
 	return nil
 }
 
+// SigDropped is the signature of the open finding F-C04d.
+const SigDropped = "answer-dropped:no-response-node:stream.ExecuteFlow"
+
+// droppedAnswer is the classifier of F-C04d over the OBSERVED events: the first
+// request-direction event whose processor answers the request itself while its
+// flow has no node of that key on the response side.
+func droppedAnswer(gs []GFlow, events []Event, orc Oracle) *Event {
+	for i := range events {
+		e := &events[i]
+		if e.Dir != "req" || !orc.get(e.Flow, e.Key, "req").Early {
+			continue
+		}
+		f := flowByName(gs, e.Flow)
+		if f != nil && f.Res.node(e.Key) == nil {
+			return e
+		}
+	}
+	return nil
+}
+
+// droppedHit: the text - "when a processor answers the request itself, the rest
+// of the request path is skipped and the response path continues from that
+// processor's response connection" - asks for an answered request also when the
+// processor has no response connection (nothing continues in that flow then);
+// the engine fails the transaction and drops the early response.
+func droppedHit(d *Event, result, errText string) (c.Hit, bool) {
+	if d == nil || result != "error" || !strings.Contains(errText, "failed to get response node") {
+		return c.Hit{}, false
+	}
+	return c.Hit{Signature: SigDropped,
+		Demanded: fmt.Sprintf("processor %s of flow %s answered the request itself: the request is answered "+
+			"(its early response is the resulting action; nothing continues in that flow, it has no response connection)", d.Key, d.Flow),
+		Observed: "the transaction fails and the early response is dropped: " + errText}, true
+}
+
 func rev(xs []string) []string {
 	out := make([]string, len(xs))
 	for i, x := range xs {
@@ -237,11 +272,16 @@ func monitor(gs []GFlow, t *Txn, orc Oracle) (hits []c.Hit, undetermined bool) {
 			return hits, free
 		}
 	}
-	// an error is only tolerated where the text is silent (the answering processor
-	// has no response node); the request part before it is still checked
+	// an error is never what the text asks for; the one that is listed as the open
+	// finding F-C04d (the answering processor has no response node) is reported
+	// under its own signature and the request part before it is still checked
 	onlyReq := false
 	if t.Result == "error" {
-		if !free {
+		if h, ok := droppedHit(droppedAnswer(gs, t.Events, orc), t.Result, t.ErrText); ok {
+			// open finding F-C04d; the request part before the error is still checked
+			hits = append(hits, h)
+			free = true
+		} else {
 			add("unexpected-error:ExecuteFlow", "the transaction is handled", "error: "+t.ErrText)
 			return hits, free
 		}
